@@ -24,6 +24,25 @@ PROPERTIES = {
         "trusted_base": ["fixedint 0.2.0 (model)", "S-MEM (spec/smem.py) stands for state.memory; the flat Memory is proved to implement it in C18", "str(float) digits"],
         "while_bound": 8,
     },
+    "C03": {
+        "modules": ["contracts.cache"],
+        "level": "proof",
+        "explanation": "per enumerated geometry/policy: every public read/write of both cache systems on ANY well-formed cache state over ANY backing memory returns/updates the logical view exactly as S-MEM prescribes, rejects exactly word-crossing/out-of-range accesses without changing any stored value, and preserves wf_cache (inductive => all histories)",
+        "configs": {"quick": "ib,bb,assoc in {(0,0,1),(1,0,1),(0,1,1),(0,0,2)} x {wb,wt} x {lru,plru}", "thorough": "quick + {(1,1,2),(1,0,2),(0,1,2),(0,0,4),(2,0,1),(0,2,1),(0,0,3 lru only)}"},
+        "trusted_base": ["S-MEM object stands for the backing Memory (C18)", "policy objects used through their C10 contracts"],
+    },
+    "C09": {
+        "modules": ["contracts.cache"],
+        "level": "proof",
+        "explanation": "same units/configurations as C03 with the accounting post-conditions against a reference set-associative cache (valid,tag per way + policy): hit <=> resident before, residency/policy after = reference (write-allocate for wb, no-write-allocate for wt), counters and miss penalty; uncounted reads and direct writes leave counters untouched",
+        "configs": {"quick": "as C03", "thorough": "as C03"},
+    },
+    "C12": {
+        "modules": ["contracts.cache"],
+        "level": "proof",
+        "explanation": "same units/configurations as C03: write-through keeps backing == logical and every resident block == its backing words (part of wf_cache, proved inductive); write-back: backing differs from logical only where resident and no written value is lost on eviction",
+        "configs": {"quick": "as C03", "thorough": "as C03"},
+    },
     "C06": {
         "modules": ["contracts.toy"],
         "level": "proof",
@@ -55,13 +74,22 @@ PROPERTIES = {
 }
 
 PENDING = "check not built yet in this session (planned, see DESIGN.md section 4)"
-NOT_APPLICABLE = {p: PENDING for p in ["C02", "C03", "C04", "C05", "C07", "C08", "C09", "C11", "C12", "C13", "C14", "C15", "C16"]}
+NOT_APPLICABLE = {p: PENDING for p in ["C02", "C04", "C05", "C07", "C08", "C11", "C13", "C14", "C15", "C16"]}
 
 _T = "contract-based deductive verification: VCs from symbolic execution of the real AST, z3"
 MANIFEST_TEXT = {
     "C01": {"text": "Proof per instruction over the full operand space: for each of the 45 in-scope mnemonics and each ecall code, the real single-stage step on a state with arbitrary registers, memory, pc and counters equals the independently written RV32IM reference on every listed component, incl. fault reporting; done <=> exit code or no instruction at pc; run() by loop invariant. Programs follow by induction over steps.",
             "note": "Data memory is the S-MEM contract object (flat Memory proved to implement it in C18). ecall 4 (string) is BOUNDED to strings of <= 6 bytes with ASCII content; ecall 2 proves only that a0's bits are formatted (float digits trusted). Termination of run() not proved. Known finding F6 (negative pc on backward branch below 0) is listed in known_findings.json.",
             "technique": _T},
+    "C03": {"text": "Proof per enumerated configuration (PROVED-PER-CONFIG): for any well-formed cache state, backing memory, address, value and flags, each read returns the S-MEM value of the logical view, each write updates exactly the touched bytes of the view (stated for every byte address), word-crossing or out-of-range accesses are rejected with every stored value unchanged, wf_cache is preserved; constructor/reset establish it. Unbounded histories by induction.",
+            "note": "Geometries outside the enumerated set are not proved. Backing memory is the S-MEM object (C18). Program-level consequence follows from C01/C02 being proved against S-MEM; it is cross-checked by a bounded run-time contract. F2 (write-through word-crossing store on a miss) was found by these units and fixed in /repo.",
+            "technique": _T + ", per-configuration inductive data-structure invariant against an abstract view"},
+    "C09": {"text": "Proof per enumerated configuration: hit flag, hit/access counters, last-hit flag, miss-penalty cycles, residency and replacement state after every operation equal those of a reference set-associative cache fed the same access, for any well-formed pre-state; uncounted reads and parser preloads leave the counters untouched.",
+            "note": "Reference policies are the real LRU/PLRU classes used through their C10 contracts. 'Identical in both modes / once per load or store' is proved per instruction class (one counted access in behavior() and in the MEM stage) and otherwise inherits C02's level.",
+            "technique": _T + ", per-configuration refinement of a reference cache"},
+    "C12": {"text": "Proof per enumerated configuration as state invariants after every operation: write-through backing == logical and resident block == backing block; write-back backing may differ only at resident addresses and eviction never loses a written value.",
+            "note": "Same assumptions and configuration set as C03.",
+            "technique": _T + ", per-configuration inductive invariants"},
     "C06": {"text": "Proof for all memory images, accumulator values, program counters and max_pc: ToySimulation.step from any instruction-boundary state equals one step of an independently written reference machine on memory, accu, pc, halting, counters; the boundary invariant is inductive, so it holds for every program and history.",
             "note": "Assumes the fixedint model, the executor's Python semantics (A-ENGINE) and C18's memory contract (proved separately). Termination of run() not proved. Non-default unified_memory_size outside the property.",
             "technique": _T},
